@@ -16,12 +16,18 @@ import vlib
 
 ENV = {"ASAN_OPTIONS": "detect_leaks=0:abort_on_error=0", "UBSAN_OPTIONS": "print_stacktrace=1"}
 MSEL = [0, 1, 3, 4, 5, 6, 15, 16, 17, 19, 20, 21, 22]
-FLAGS = ["delref", "hide", "affix", "delmeta", "rencache", "renref", "spec", "parent", "malias"]
+FLAGS = ["derefclear", "rendup"]   # repairs proposed (C15-11, C15-12) but not necessarily in the tree
 
 # ---------------------------------------------------------------- witnesses
 # one per repair flag; the implementation's output on the witness must equal
 # the model's with the flag off (defect present) or on (repaired)
 WITNESS = {
+    "derefclear": ["A 0 - x 15 0 0 - - 1", "L - al x 0", "D x 12"],
+    "rendup": ["A 0 - a 15 0 0 - - 1", "L - q nothere 0", "R a q 0"],
+}
+# regression witnesses for the defects repaired in /repo (fix: commits d815d97 .. 71a6c5d, fb2ee00):
+# run like every other sequence; they must now agree with the model and satisfy the property text
+FIXED_WITNESS = {
     "delref": ["A 0 - r 0 0 0 - - 0", "D r 0"],
     "hide": ["A 0 - a 15 0 0 - - 1", "A 0 - b 15 0 0 - - 2", "Q - 22 0", "H a 1", "Q - 22 0"],
     "affix": ["A 0 - x 15 1 0 - - 1", "Q - 22 0", "X 1 p ~", "Q - 22 0"],
@@ -30,17 +36,21 @@ WITNESS = {
     "renref": ["A 0 - r 0 0 0 - - 0", "R r s 0"],
     "spec": ["A 0 - p 15 0 0 - - 1", "Q - 22 0", "A 1 - q 15 0 0 - - 2", "Q - 22 0"],
     "parent": ["A 0 - p 15 0 0 - - 1", "A 0 p c 15 0 0 - - 2", "D p/c 0"],
-    "malias": ["A 0 - p 15 0 0 - - 1", "A 0 - x 15 0 0 - - 2", "L p al x 0", "Q p 22 0"],
+    "malias": ["A 0 - p 15 0 0 - - 1", "A 0 - x 15 0 0 - - 2", "L p al x 0", "Q p 22 0", "D p 0"],
+    "alias-loop": ["L - b c 0", "L - c b 0", "L - a b 0", "R a zz 0"],
 }
-# defects that have no repair flag in the model: the model reproduces them
-# faithfully (so model == implementation) and the specification check flags them
+# open defects: the model reproduces them faithfully (model == implementation) and the
+# specification check flags them
 EXTRA_WITNESS = {
-    "alias-loop": ["L - b c 0", "L - c b 0", "L - a b 0"],
     "alias-stale": ["A 0 - x 15 0 0 - - 1", "L - al x 0", "D x 8", "A 0 - x 15 0 0 - - 1"],
     "alias-chain-order": ["L - b x 0", "L - a b 0", "A 0 - x 15 0 0 - - 1"],
+    "alias-intermediate": ["A 0 - x 15 0 0 - - 1", "L - b x 0", "L - a b 0", "D b 8"],
     "alias-cache": ["A 0 - p 15 0 0 - - 1", "L - al p/m 0", "Q - 22 0", "A 1 p m 15 0 0 - - 2", "Q - 22 0"],
+    "alias-cache-del": ["A 0 - p 15 0 0 - - 1", "A 1 p m 15 0 0 - - 2", "L - al p/m 0", "Q - 22 0", "D p/m 8", "Q - 22 0"],
     "deref-force-alias": ["A 0 - x 15 0 0 - - 1", "L - al x 0", "D x 12"],
     "rename-onto-dangling-alias": ["A 0 - a 15 0 0 - - 1", "L - q nothere 0", "R a q 0"],
+    "affix-alias": ["A 0 - x 15 1 0 - - 1", "L - al x 0", "X 1 p ~"],
+    "affix-reference": ["A 0 - r 0 1 0 - - 0", "X 1 p ~"],
 }
 
 
@@ -306,46 +316,10 @@ def gen_sequence(rng, n, alias_loops):
     return ops
 
 
-MYFILES = ["Properties_C15.v", "C15/Order.v", "C15/OrderProofs.v", "C15/NameTable.v", "C15/NameTableProofs.v",
-           "C15/Witness.v", "C15/Extract.v"]
-
-
-def prove_c15(chk):
-    """chk.prove with the hygiene grep restricted to this property's files (other builders'
-    work in progress must not fail this check)."""
-    ths = vlib.coq_theorems("Properties_C15.v")
-    chk.cov["obligations"] += len(ths)
-    ok, log = vlib.coq_make(["Properties_C15.vo"], 1500)
-    chk.cov["checker_cmd"] = "cd /verif/coq && coq_makefile -f _CoqProject -o Makefile && make -k -j16 Properties_C15.vo  (coqc 8.16.1, kernel-checked Qed; vm_compute only)"
-    hy = vlib.coq_hygiene(files=MYFILES)
-    if hy:
-        chk.violation("hygiene", "forbidden declaration in the C15 development: " + "; ".join(hy[:5]), {"kind": "proof-hygiene", "hits": hy}, found=False)
-        return False
-    if not ok:
-        chk.proof_log = log
-        return False
-    pa, out = vlib.coq_assumptions("Properties_C15", ths)
-    if pa is None:
-        chk.proof_log = out
-        return False
-    chk.cov["discharged"] += len(ths)
-    chk.cov.setdefault("theorems", []).extend(ths)
-    for t, a in pa.items():
-        chk.cov["trusted_base"].append("Print Assumptions %s: %s" % (t, a))
-    return True
-
-
 def main():
     chk = vlib.Check("C15")
     rng = chk.rng
-    # findings staged in known_findings.d/C15.json count as listed
-    kd = os.path.join(vlib.VERIF, "known_findings.d", "C15.json")
-    if os.path.exists(kd):
-        have = set(f["key"] for f in chk.known)
-        for f in json.load(open(kd)).get("findings", []):
-            if f.get("property") == "C15" and f.get("status", "open") == "open" and f["key"] not in have:
-                chk.known.append(f)
-    proved = prove_c15(chk)
+    proved = chk.prove("Properties_C15")
     chk.cov["trusted_base"] += [
         "Coq 8.16.1 kernel, vm_compute",
         "model coq/C15/NameTable.v transcribed by hand from add.c/del.c/name.c/move.c/entry.c/fragment.c/field_list.c/parse.c/common.c; tied to the code only by the correspondence below",
@@ -400,7 +374,7 @@ def main():
                 cb = "".join(others if i != len(bits) else b for i in range(len(FLAGS)))
                 mrc, mout = run_model(w, cb)
                 msteps = parse_steps(mout)
-                ncr = [i for i, s in enumerate(msteps) if s[0].startswith("> crash")]
+                ncr = [i for i, s in enumerate(msteps) if s[0].startswith("> crash") or (s[2] and s[2].get("alive") == "0")]
                 if ncr:
                     # model predicts a crash at step ncr[0]: implementation must die there
                     if rc != 0 and len(isteps) <= ncr[0] + 1 and strip_i(msteps[:ncr[0]]) == isteps[:ncr[0]]:
@@ -415,7 +389,7 @@ def main():
                           {"kind": "model-vs-impl", "witness": w, "impl_output": out[-3000:]}, found=False)
             verdict = "0"
         bits.append(verdict)
-        cfgnote[k] = "repaired" if verdict == "1" else "defect present"
+        cfgnote[k] = "repaired" if verdict == "1" else "open (as listed)"
     bits = "".join(bits)
     chk.notes.append("detected configuration: " + json.dumps(cfgnote))
     chk.cov["config_bits"] = bits
@@ -430,7 +404,7 @@ def main():
             ops.append("X 1 %s %s" % (rng.choice(["p", "pre_", "~"]), rng.choice(["~", "s", "_x"])))
             ops += ["Q - 22 0", "Q - 22 1", "Q %s 22 0" % rng.choice(TOP)]
         seqs.append(ops)
-    for k, w in list(WITNESS.items()) + list(EXTRA_WITNESS.items()):
+    for k, w in list(WITNESS.items()) + list(EXTRA_WITNESS.items()) + list(FIXED_WITNESS.items()):
         seqs.append(list(w))
 
     def one(ops):
